@@ -80,4 +80,29 @@ theorem C06_reconcile_trial_is_source (v : World) (t : TrialO) (state : JobState
       (try (cases ho : t.st.obs <;> simp [ho]))
 
 
+set_option maxHeartbeats 2000000 in
+/-- **C06_mark_guards_exclusive**: stated on the regenerated conditions alone — in one call of `UpdateTrialStatusCondition`, for
+    every job outcome and every combination of conditions the Trial carries, at most one of the four `MarkTrialStatus…` calls
+    is reached; an early-stopped Trial reaches none of Succeeded / Failed / Running, a Trial that already carries a verdict is not
+    given the same one again, and Succeeded needs an available observation -/
+theorem C06_mark_guards_exclusive (hasMessage hasReason u : Bool) :
+    ∀ (jobSucceeded jobFailed jobRunning obsAvailable succeeded earlyStopped metricsUnavailable failed running push reportFailed : Bool),
+    (markSucceededGuard jobSucceeded jobFailed jobRunning obsAvailable succeeded earlyStopped metricsUnavailable failed running push reportFailed hasMessage hasReason u).toNat + (markUnavailableGuard jobSucceeded jobFailed jobRunning obsAvailable succeeded earlyStopped metricsUnavailable failed running push reportFailed hasMessage hasReason u).toNat +
+      (markFailedGuard jobSucceeded jobFailed jobRunning obsAvailable succeeded earlyStopped metricsUnavailable failed running push reportFailed hasMessage hasReason u).toNat + (markRunningGuard jobSucceeded jobFailed jobRunning obsAvailable succeeded earlyStopped metricsUnavailable failed running push reportFailed hasMessage hasReason u).toNat ≤ 1 ∧
+    (earlyStopped = true →
+      markSucceededGuard jobSucceeded jobFailed jobRunning obsAvailable succeeded earlyStopped metricsUnavailable failed running push reportFailed hasMessage hasReason u = false ∧
+      markFailedGuard jobSucceeded jobFailed jobRunning obsAvailable succeeded earlyStopped metricsUnavailable failed running push reportFailed hasMessage hasReason u = false ∧
+      markRunningGuard jobSucceeded jobFailed jobRunning obsAvailable succeeded earlyStopped metricsUnavailable failed running push reportFailed hasMessage hasReason u = false) ∧
+    (markSucceededGuard jobSucceeded jobFailed jobRunning obsAvailable succeeded earlyStopped metricsUnavailable failed running push reportFailed hasMessage hasReason u = true →
+      obsAvailable = true ∧ succeeded = false ∧ jobSucceeded = true) ∧
+    (markFailedGuard jobSucceeded jobFailed jobRunning obsAvailable succeeded earlyStopped metricsUnavailable failed running push reportFailed hasMessage hasReason u = true →
+      failed = false ∧ jobFailed = true ∧ jobSucceeded = false) ∧
+    (markUnavailableGuard jobSucceeded jobFailed jobRunning obsAvailable succeeded earlyStopped metricsUnavailable failed running push reportFailed hasMessage hasReason u = true →
+      metricsUnavailable = false ∧ jobSucceeded = true) := by
+  unfold markSucceededGuard markUnavailableGuard markFailedGuard markRunningGuard
+  intro jobSucceeded jobFailed jobRunning obsAvailable succeeded earlyStopped metricsUnavailable failed running push reportFailed
+  cases jobSucceeded <;> cases jobFailed <;> cases jobRunning <;> cases obsAvailable <;> cases succeeded <;>
+    cases earlyStopped <;> cases metricsUnavailable <;> cases failed <;> cases running <;> cases push <;> cases reportFailed <;>
+    decide
+
 end Katib.Gen
